@@ -24,6 +24,11 @@ type stdCodec struct {
 	files []string
 }
 
+// embedsSub[codec]: the struct has a field that is an object of another package with status-returning
+// methods (set by runStdHistories from the parsed source, before the workers start: webp→vp8, png→zlib,
+// zlib/gzip→deflate, xz/lzip→lzma)
+var embedsSub = map[string]bool{}
+
 var stdCodecs = []stdCodec{
 	{"gif", 'I', "decoder", []string{"pjw-thumbnail.gif", "hippopotamus.regular.gif", "animated-red-blue.gif", "hippopotamus.interlaced.truncated.gif", "artificial-gif/metadata-full.gif", "artificial-gif/metadata-empty.gif", "artificial-gif/no-frames.gif", "artificial-gif/multiple-loop-counts.gif"}},
 	{"png", 'I', "decoder", []string{"pjw-thumbnail.png", "hippopotamus.regular.png", "animated-red-blue.apng", "red-blue-gradient.gamma2dot2.png", "red-blue-gradient.dcip3d65-no-chrm-no-gama.png", "hippopotamus.regular.truncated.png", "artificial-png/exif.png", "artificial-png/key-value-pairs.png", "artificial-png/apng-skip-idat.png"}},
@@ -297,9 +302,10 @@ func stdHistory(rng *hlib.Rand, d *cdrv.Driver, c *stdCodec, ms []*methodInfo, s
 	if isImg {
 		cs = parseCS(toks[1])
 	}
-	active := 0
+	active, magic := 0, "zero"
 	if m := rePeek.FindStringSubmatch(toks[0]); m != nil {
 		active, _ = strconv.Atoi(m[2])
+		magic = magicClass(m[1])
 	}
 	haveDst, pixOK := false, false
 	var sigb strings.Builder
@@ -322,6 +328,7 @@ func stdHistory(rng *hlib.Rand, d *cdrv.Driver, c *stdCodec, ms []*methodInfo, s
 		case "fill":
 			if m := rePeek.FindStringSubmatch(toks[slots[i].peek]); m != nil {
 				active, _ = strconv.Atoi(m[2])
+				magic = magicClass(m[1])
 			}
 		}
 		if !x.isInit && x.method == "" {
@@ -332,8 +339,9 @@ func stdHistory(rng *hlib.Rand, d *cdrv.Driver, c *stdCodec, ms []*methodInfo, s
 			h.op("call 0 0 - -", "harness-error:no-peek:"+toks[slots[i].peek])
 			return h
 		}
-		activeBefore := active
+		activeBefore, magicBefore := active, magic
 		active, _ = strconv.Atoi(pk[2])
+		magic = magicClass(pk[1])
 		csBefore := cs
 		if isImg {
 			cs = parseCS(toks[slots[i].cs])
@@ -425,6 +433,22 @@ func stdHistory(rng *hlib.Rand, d *cdrv.Driver, c *stdCodec, ms []*methodInfo, s
 		if returnsStatus {
 			hint, implStatus = status, status
 		}
+		// Did the OUTER protocol layer let this call through? A coroutine of an object that embeds
+		// sub-objects can return a protocol status that a SUB-object's protocol layer produced (std/webp
+		// calling vp8.decode_frame? while vp8.decode_image_config? is suspended). The outer object's own
+		// words tell the two apart: the outer prologue rejects only if magic != MAGIC, an argument is bad
+		// or another coroutine is active, and then returns early: `interleaved` leaves active_coroutine
+		// as it was (non-zero), `disabled`/`not initialised` leave the magic word as it was; an error from
+		// the body goes through the epilogue: magic = DISABLED, active_coroutine = 0.
+		innerBody := false
+		if returnsStatus && !x.selfnull && embedsSub[c.name] && m.Effect == 'c' && !argsBad &&
+			(status == stInterleaved || status == stDisabled || status == stNotInit) &&
+			magicBefore == "magic" && (activeBefore == 0 || activeBefore == m.CoroID) &&
+			magic == "disabled" && active == 0 {
+			innerBody = true
+			hint = "inner:" + status
+			h.count("std:" + c.name + ":" + x.method + ":sub-object-protocol-status-from-body")
+		}
 		h.op(fmt.Sprintf("call %d %d %s %s", mi, b2i(x.selfnull), avs, hint), fmt.Sprintf("%s %s %s", implStatus, magicClass(pk[1]), pk[2]))
 		h.count("std:" + c.name + ":" + x.method + ":" + shortStatus(implStatus))
 		fmt.Fprintf(&sigb, "%d%s,%s,%s;", mi, shortStatus(implStatus), magicClass(pk[1]), pk[2])
@@ -447,7 +471,7 @@ func stdHistory(rng *hlib.Rand, d *cdrv.Driver, c *stdCodec, ms []*methodInfo, s
 			h.fails = append(h.fails, hlib.Failure{Key: key + ":" + c.name + ":" + x.method, Desc: fmt.Sprintf("clause %s violated at item %d: %s returned %s", key, i, x.text, status), Replay: replay})
 		}
 		// call_sequence: only calls whose body ran (not rejected by the protocol prologue)
-		prologue := status == stNotInit || status == stDisabled || status == stInterleaved || (argsBad && status == stBadArg)
+		prologue := ((status == stNotInit || status == stDisabled || status == stInterleaved) && !innerBody) || (argsBad && status == stBadArg)
 		var meth string
 		switch x.method {
 		case "decode_image_config":
@@ -643,6 +667,19 @@ func runStdHistories(r *hlib.Run, std []*pkgData) {
 			if m.Recv == c.strct {
 				ms = append(ms, m)
 			}
+		}
+		for _, sub := range subObjects[c.name+"."+c.strct] {
+			j := strings.IndexByte(sub, '.')
+			if sp := byName[sub[:j]]; sp != nil {
+				for _, m := range sp.methods {
+					if m.Recv == sub[j+1:] && (m.Effect == 'c' || m.Out == 's') {
+						embedsSub[c.name] = true
+					}
+				}
+			}
+		}
+		if embedsSub[c.name] {
+			r.Count("std:codecs-embedding-sub-objects")
 		}
 		line, err := d.Run("sizeof " + c.name)
 		var sizeof int
